@@ -22,8 +22,10 @@ ASSUMPTIONS = [
 ]
 SHARDS = {"quick": 2, "thorough": 16}
 
-CREATE_APIS = ["create_keep", "create_keep_with_info", "create_measure", "create_rsp"]
-RECV_APIS = ["recv_keep", "recv_keep_with_info", "recv_measure", "recv_rsp", "recv_rsp_with_info"]
+CREATE_APIS = ["create_keep", "create_keep_with_info", "create_measure", "create_rsp", "create:K", "create:M", "create:R"]
+RECV_APIS = ["recv_keep", "recv_keep_with_info", "recv_measure", "recv_rsp", "recv_rsp_with_info", "recv:K", "recv:M", "recv:R"]
+# "create:X" / "recv:X" are the deprecated generic entry points EPRSocket.create(tp=...) / EPRSocket.recv(tp=...)
+CANON = {"create:K": "create_keep", "create:M": "create_measure", "create:R": "create_rsp", "recv:K": "recv_keep", "recv:M": "recv_measure", "recv:R": "recv_rsp"}
 
 
 @st.composite
@@ -45,6 +47,10 @@ def st_case(draw):
         "kw": {},
     }
     kw = case["kw"]
+    alias = api if ":" in api else None
+    api = CANON.get(api, api)
+    case["api"] = api
+    case["alias"] = alias
     if role == "create":
         if draw(st.integers(0, 1)):
             kw["time_unit"] = draw(st.sampled_from([t.name for t in TimeUnit]))
@@ -124,7 +130,17 @@ def check(case) -> Dict[str, Any]:
 
         kw["post_routine"] = post
     try:
-        result = getattr(sock, api)(number=number, **kw)
+        if case.get("alias"):
+            from netqasm.qlink_compat import EPRType
+
+            tp = EPRType[case["alias"].split(":")[1]]
+            if role == "create":
+                result = sock.create(number=number, tp=tp, **kw)
+            else:
+                kw.pop("expect_phi_plus", None)
+                result = sock.recv(number=number, tp=tp, **kw)
+        else:
+            result = getattr(sock, api)(number=number, **kw)
     except ValueError as e:
         return {"rejected": f"ValueError: {str(e)[:60]}"}
     tp = "K" if api in ("create_keep", "create_keep_with_info", "recv_keep", "recv_keep_with_info", "recv_rsp", "recv_rsp_with_info") else "M"
@@ -265,7 +281,7 @@ def shard(ctx: Ctx) -> None:
             stt.evaluations += 1
             return
         nt = case["number"] >= 2 or bool(case["kw"])
-        labels = [case["api"], f"pairs:{case['number']}", case["hardware"]] + [f"kw:{k}" for k in case["kw"]]
+        labels = [case["api"], f"pairs:{case['number']}", case["hardware"]] + [f"kw:{k}" for k in case["kw"]] + (["deprecated-alias"] if case.get("alias") else [])
         stt.case({k: v for k, v in case.items()}, nt, labels, sample={k: case[k] for k in ("role", "api", "number", "kw", "hardware")})
 
     ctx.search(st_case(), body, n, name="c11")
